@@ -261,3 +261,43 @@ Proof.
   cbn [disjoint]. split; [apply Nat.leb_le; exact H1|]. split; [|apply IH; exact H3].
   rewrite forallb_forall in H2. apply Forall_forall. intros q I. apply Nat.leb_le. apply H2. exact I.
 Qed.
+
+(* ------------------------------------------------------------ one file, several spellings *)
+(* "for a file with disjoint patches inside it, the command leaves the patches
+   applied together", whatever the number of times the file was named *)
+Definition yr_file_meets_spec : Prop :=
+  forall n ps s, 1 <= n -> chain 0 (sort_patches ps) -> in_bounds ps s ->
+  yr_file n ps s = Ok (splice (sort_patches ps) s).
+
+(* REFUTED while the patches are collected per path as written: `0 of them`
+   named twice (`ns1:t.yar ns2:./t.yar`, replayed on `yr fix warnings` by the
+   harness) goes through two rounds: the second replaces bytes 38..39 of
+   the text that the first one produced. *)
+Definition twice_patches : list patch := [mkPatch 38 39 [110; 111; 110; 101]%N].
+Definition twice_text : list N := repeat 7%N 38 ++ [48]%N ++ repeat 8%N 10.
+Lemma yr_file_twice_refuted : groups_by_path_as_given = true -> ~ yr_file_meets_spec.
+Proof.
+  intros G H. specialize (H 2 twice_patches twice_text).
+  assert (C : chain 0 (sort_patches twice_patches)).
+  { unfold sort_patches. destruct sorts_by_start; vm_compute; repeat split; repeat constructor. }
+  assert (B : in_bounds twice_patches twice_text).
+  { unfold in_bounds. repeat constructor. }
+  specialize (H ltac:(lia) C B). revert H. unfold yr_file. rewrite G.
+  unfold apply_rounds, apply, sort_patches. destruct sorts_by_start, skips_overlapping, truncates_before_writing; vm_compute; intro H; discriminate H.
+Qed.
+
+(* with one round per FILE it holds *)
+Theorem yr_file_once : groups_by_path_as_given = false -> yr_file_meets_spec.
+Proof.
+  intros G n ps s _ C B. unfold yr_file. rewrite G. cbn [apply_rounds].
+  rewrite (apply_spec_sorted ps s C B). reflexivity.
+Qed.
+
+(* and in any case for a file that is named once *)
+Theorem yr_file_named_once : forall ps s,
+  chain 0 (sort_patches ps) -> in_bounds ps s ->
+  yr_file 1 ps s = Ok (splice (sort_patches ps) s).
+Proof.
+  intros ps s C B. unfold yr_file. destruct groups_by_path_as_given; cbn [apply_rounds];
+  rewrite (apply_spec_sorted ps s C B); reflexivity.
+Qed.
